@@ -444,7 +444,9 @@ fn unknown_body(g: &mut DocGen, out: &mut Vec<Item>, depth: u32) {
                 let lit = g.string_literal(&c);
                 out.push(Item::Tok(lit));
             }
-            4 | 5 => out.push(Item::Tok((*g.t.pick(&["SOME_IDENT", "x.y[3]", "ENUM_VAL", "UNKNOWN_TAG"])).to_string())),
+            // identifiers; behind a block an identifier is read as the tag of a keyword-style item, so the names of the
+            // blocks are in the pool too: the same tag then occurs in block form and in keyword form in one parent
+            4 | 5 => out.push(Item::Tok((*g.t.pick(&["SOME_IDENT", "x.y[3]", "ENUM_VAL", "UNKNOWN_TAG", "Q", "DAQ", "SUB_BLOCK"])).to_string())),
             _ => {
                 if depth < 3 && g.opts.ifdata_a2ml_block && g.t.chance(1, 6) {
                     // a block named A2ML inside IF_DATA: the tokenizer hands its whole content over as one text token
